@@ -975,6 +975,20 @@ func Run(r *common.Run) error {
 		}
 		return nil
 	}
+	// smoke: a served session handles a stanza and ends cleanly when the peer closes its stream.
+	// On a tree where not even that works the failure is reported with this replay and the
+	// scenarios whose watchdogs assume a working Serve (seconds each) are not run.
+	r.Mark("case smoke")
+	c.hist(true, []string{"m", "p"}, "smoke")
+	c.hist(true, []string{"m", "m", "c", "p"}, "smoke")
+	if len(r.Failures) > 0 {
+		for _, h := range [][]string{{"p"}, {"m"}, {"y", "p"}, {"c", "p"}, {"t1", "m", "p"}, {"d"}, {"df", "m", "p"}} {
+			c.hist(true, h, "smoke")
+		}
+		c.hist(false, []string{"v", "m", "p"}, "smoke")
+		r.Notes = append(r.Notes, "Serve does not serve on this tree (smoke histories failed): the remaining scenarios were skipped")
+		return nil
+	}
 	r.Mark("case close-blocked")
 	c.closeBlocked()
 	c.envCases()
